@@ -1580,6 +1580,20 @@ fn parse_mapping(mapping: &Mapping) -> crate::Result<Expression> {
                         }
                     }
                 }
+                // NOTE: all()/of() count the members as written. Members that were merged into one
+                // automaton or regex set are only counted individually when that search is the
+                // whole group, so when there are other parts keep one expression per member.
+                if multiple && group.len() > 1 && matches!(e, Expression::Match(_, _)) {
+                    group.clear();
+                    for value in s {
+                        let mut member = Mapping::new();
+                        member.insert(
+                            Yaml::String(f.clone()),
+                            Yaml::Sequence(vec![value.clone()]),
+                        );
+                        group.push(parse_mapping(&member)?);
+                    }
+                }
                 if group.is_empty() {
                     return Err(crate::error::parse_invalid_ident("failed to parse mapping"));
                 } else if !multiple
